@@ -38,7 +38,7 @@ var coreShapeFns = []shapeFn{
 	{"Channel", "FinishMessage"}, {"Channel", "RequeueMessage"}, {"Channel", "TouchMessage"},
 	{"Channel", "pushInFlightMessage"}, {"Channel", "popInFlightMessage"},
 	{"Channel", "processInFlightQueue"}, {"Channel", "processDeferredQueue"},
-	{"Channel", "flush"}, {"Channel", "exit"}, {"Channel", "Empty"},
+	{"Channel", "flush"}, {"Channel", "exit"}, {"Channel", "Empty"}, {"Channel", "empty"},
 	{"Channel", "AddClient"}, {"Channel", "RemoveClient"},
 	{"Topic", "messagePump"}, {"Topic", "put"}, {"Topic", "PutMessage"}, {"Topic", "PutMessages"},
 	{"Topic", "flush"}, {"Topic", "exit"}, {"Topic", "GetChannel"}, {"Topic", "DeleteExistingChannel"},
